@@ -569,3 +569,6 @@ POP = "        queue_item = heapq.heappop(self.p_queue)\n        self.max_probab
 add('*', 'pop-timed-on-stderr', PQF, [("import heapq\n", "import heapq\nimport sys\nimport time\n"), (POP, "        pop_started = time.perf_counter()\n" + POP + "        print('pop took', time.perf_counter() - pop_started, file=sys.stderr)\n")], None, 'silent')
 add('*', 'pop-counter-nobody-reads', PQF, [(POP, POP + "        self.num_popped_items += 1\n")], None, 'silent')
 add('C08', 'pop-counter-that-ends-the-run', PQF, [(POP, POP + "        self.num_popped_items = 1\n        if self.num_popped_items > 1000000:\n            return None\n")], None, 'fire')
+# ---- the defect repaired by 1925658 ------------------------------------------------------------------------------
+JOIN_LOOP = "                    while password and password[-1] not in '\\r\\n':\n                        rest_of_line = self.file.readline()\n                        if rest_of_line == \"\":\n                            break\n                        password += rest_of_line\n"
+add('C19', 'revert-fix-1925658 (codecs readline as the record boundary)', TFIF, JOIN_LOOP, "", 'fire', 'C19.R15')
